@@ -4,23 +4,29 @@ from common import Rng
 PT = "/verif/.build/pt"
 
 THEOREMS = [
-    "check_run_ok", "negotiate_agrees", "codecs_mirror", "encode_lengths_consistent", "encode_frame_bound", "fitLoop_is_fitN", "chunks_partition_entries",
+    "check_run_ok", "negotiate_agrees", "codecs_mirror", "encode_lengths_consistent", "encode_frame_bound", "fitLoop_is_fitN",
+    "put_entries_progress", "encode_frame_bound_all", "encode_never_drops", "chunks_partition_entries",
     "encodeLoop_is_chunks", "roundtrip_update", "roundtrip_open", "roundtrip_small", "roundtrip_keepalive",
     "roundtrip_refresh", "roundtrip_notification", "as4_roundtrip", "decode_encode_fixed_point",
-    "decode_encode_fixed_point_frame", "encode_frame_bound_full_false", "chunks_partition_full_false",
-    "as4_roundtrip_full_false", "check_run_full_false", "witness_nexthop", "witness_dropped", "witness_open",
-    "witness_partial", "witness_confed",
+    "decode_encode_fixed_point_frame", "as4_roundtrip_full_false", "check_run_full_false", "witness_nexthop",
+    "witness_confed_tail", "repaired_dropped", "repaired_refused", "repaired_open", "repaired_partial", "repaired_confed",
+    "repaired_notification",
 ]
 
 THEOREM_BACKED = ["OPEN + all capability kinds (block <= 253 bytes)", "NOTIFICATION", "KEEPALIVE", "ROUTE-REFRESH",
                   "End-of-RIB (any negotiated family)",
-                  "UPDATE Unreach IPv4/IPv6 unicast+multicast: legacy and MP_UNREACH_NLRI, add-path on/off, both frame limits",
+                  "UPDATE Unreach IPv4/IPv6 unicast+multicast: legacy and MP_UNREACH_NLRI, add-path on/off, both frame limits, any "
+                  "encodable input (no further size side condition)",
                   "UPDATE Reach IPv4/IPv6 unicast+multicast on 4-octet-AS sessions: legacy (NEXT_HOP) and MP_REACH_NLRI "
                   "(IPv6 / link-local / RFC 8950 next hop), all attribute kinds of Attribute::decode, add-path on/off",
-                  "AS_PATH 2-byte downgrade + AS4_PATH + reconciliation (as4_roundtrip, function level)",
+                  "AS_PATH 2-byte downgrade + AS4_PATH + reconciliation incl. leading confederation segments (as4_roundtrip, function "
+                  "level, exact condition = what RFC 6793 can carry)",
                   "PeerCodec::negotiate vs the RFC reading of simple capability sets (negotiate_agrees; also re-checked by the "
                   "oracle on every generated case), mirror property of the two codecs",
-                  "chunk loop: partition of the entry list, frame bound under the size side condition"]
+                  "chunk loop, for EVERY input (all families, all message kinds, both profiles): every frame do_encode returns is "
+                  "within the negotiated maximum (encode_frame_bound_all), put_entries never returns a zero count for a non-empty "
+                  "list (put_entries_progress), and whenever encode_to returns Ok the per-frame counts partition the entry list "
+                  "(encode_never_drops)"]
 HYPOTHESIS_BACKED = ["NLRI encoders/decoders of VPNv4/v6, labeled-unicast v4/v6, EVPN, flowspec v4/v6(+VPN), BGP-LS, MUP v4/v6, "
                      "SR-policy v4/v6, RTC: wire bytes and per-entry decode verdict are measured on the real code (probe) and "
                      "passed in the case; framing/chunking around them is the modelled code; judged by the structural oracle "
@@ -30,20 +36,24 @@ HYPOTHESIS_BACKED = ["NLRI encoders/decoders of VPNv4/v6, labeled-unicast v4/v6,
 
 CONFIG = dict(
     level_text="Kernel-checked Lean theorems about a hand-written model of the BGP encoder (PeerCodec::negotiate, encode_to / "
-               "do_encode chunk loop, mp_reach/mp_unreach_encode with their reservations, Attribute::encode with the 2-byte-AS "
-               "downgrade, Capability::encode with its u8 arithmetic) and of the peer's decoder: the master theorem "
+               "do_encode chunk loop with put_entries (NLRI fitted by their encoded length) and the final size check, "
+               "mp_reach/mp_unreach_encode, Attribute::encode with the 2-byte-AS downgrade, Capability::encode with its one-octet "
+               "length checks) and of the peer's decoder: the master theorem "
                "(the C04 reference checker - framing, negotiated maximum, length-field consistency, decoded (prefix, path-id) "
                "multiset, next hop, attributes up to the extended-length flag, fixed-point probe - accepts every model run on a "
-               "decidable domain, in the debug and the release arithmetic profile), the partition theorem of the chunk loop, the "
-               "frame bound with its explicit size side condition, OPEN/NOTIFICATION/KEEPALIVE/ROUTE-REFRESH/EoR round trips, "
-               "the AS4 round trip with its exact condition, and kernel-evaluated witnesses for everything the domain excludes. "
+               "decidable domain, in the debug and the release arithmetic profile), unconditional theorems about the chunk loop "
+               "(every frame within the negotiated maximum; no frame without progress; encode_to Ok => the per-frame counts "
+               "partition the entry list, for every input), OPEN/NOTIFICATION/KEEPALIVE/ROUTE-REFRESH/EoR round trips, "
+               "the AS4 round trip with its exact condition, and kernel-evaluated witnesses for what the domain excludes and for "
+               "the repaired defects (now accepted / refused with Err). "
                "The model is tied to packet/src/bgp.rs by running the real encoder + the real peer decoder and the model on the "
                "same generated cases in debug and release builds and diffing byte streams and decoded values; the reference "
-               "checker is the oracle on the real outputs (it found 2 defects that were repaired and 16 recorded ones).",
+               "checker is the oracle on the real outputs (it found 17 defect signatures that were repaired; 4 signatures stay "
+               "recorded: the IPv4-next-hop padding in MP_REACH and two RFC 6793 protocol limitations).",
     level_note="Trusted: Lean kernel; axioms propext/Classical.choice/Quot.sound; the hand-written model and reader (checked "
                "only by the correspondence stream); harness glue (case construction incl. attributes obtained through the real "
                "decoder, rendering). Master-theorem domain = buildable+encodable messages; UPDATEs of IPv4/IPv6 "
-               "unicast/multicast with room for one entry per frame; announcements only on 4-octet-AS sessions and without an "
+               "unicast/multicast; announcements only on 4-octet-AS sessions and without an "
                "IPv4 next hop inside MP_REACH. Modelled, not verified: 2-byte-AS announcements as whole messages, the families "
                "outside the model (probe-parameterised, impl-only oracle), BytesMut growth, non-ASCII FQDN, Family reserved octet.",
     lean_modules=["Rbgp.Enc.Props"],
@@ -62,7 +72,7 @@ CONFIG = dict(
          "with 255-AS segments, >255 hops, wide AS, confed segments; attributes stored with EXTENDED/PARTIAL bits (values "
          "obtained through the real decoder); OPEN capability blocks around 255 bytes; non-trivial = at least one frame "
          "longer than the fixed header was produced; distinct = distinct case line",
-    expect_tokens=["(panic)", "(err 1 2)", "(err 3 1)", "(err 3 9)", "(err 2 0)", "(fp t)", "(fp na)", "(eor ", "(open ",
+    expect_tokens=["(err)", "(fp t)", "(fp na)", "(eor ", "(open ",
                    "(notif ", "keepalive", "(rr ", "(upd (r 1 1 ", "(upd none (r 2 1 ", "(upd none (r 1 1 ", "(v6ll ", "(o ",
                    "none none (u 1 1 ", "none none none (u 2 1 ", "(errs (", "(opq "],
     trusted_base=["model Rbgp/Enc/Model.lean (encoder) and Rbgp/Enc/Reader.lean (peer decoder, written from RFC 4271/4760/7911/"
@@ -71,13 +81,15 @@ CONFIG = dict(
                   "attributes through the real decoder), renders ParsedMessage through public accessors; for impl-only families "
                   "the NLRI values come from deterministic constructors and their wire bytes / decode verdicts are probes measured "
                   "on the same build",
-                  "spec Rbgp/Enc/Spec.lean: `buildable` (what the daemon can build) and `encodable` (RFC wire-size lower bound) "
-                  "delimit the quantifier; canonicalisation = extended-length flag + FQDN lower-casing only"],
+                  "spec Rbgp/Enc/Spec.lean: `buildable` (what the daemon can build) delimits the quantifier; `encodable` (every entry "
+                  "fits a frame of its own by the RFC wire sizes, capability block within its one-octet lengths, every NLRI has a "
+                  "wire form) decides whether a refusal (Err) is the required or a forbidden outcome; canonicalisation = "
+                  "extended-length flag, FQDN lower-casing, NOTIFICATION data cut to the negotiated maximum"],
     modelled_not_verified=["announcements towards a 2-byte-AS peer as whole messages (model + correspondence; theorem only for the "
                            "AS_PATH transformation)", "families outside the model (hypothesis-backed, see assumptions)",
                            "BytesMut growth/reserve, the tokio Framed adapter", "non-ASCII FQDN strings, the reserved octet of "
-                           "Family(u32) in MP capabilities", "u16 withdrawn_len accumulation (shown not to overflow by the loop bound, "
-                           "modelled as Nat)"],
+                           "Family(u32) in MP capabilities", "`withdrawn_len as u16` / `mp_len as u16` casts (cannot truncate: the loop "
+                           "keeps the frame within the maximum; modelled with the truncation)"],
     assumptions=["theorem_backed: " + "; ".join(THEOREM_BACKED), "hypothesis_backed: " + "; ".join(HYPOTHESIS_BACKED),
                  "buildable messages: distinct attribute codes, none of NEXT_HOP/MP_REACH/MP_UNREACH/AS4_PATH/AS4_AGGREGATOR in the "
                  "attribute list (the encoder synthesises them), attribute contents as Attribute::decode guarantees, ORIGIN and "
